@@ -1,8 +1,10 @@
 import Drv.C19
 import Drv.C15
+import Drv.C16
 /-! `drv <model>`: executable models behind a one-line-in, one-line-out protocol. -/
 def main (args : List String) : IO UInt32 := do
   match args with
   | ["c19"] => Drv.pureLoop Drv.C19.step; return 0
   | ["c15"] => Drv.pureLoop Drv.C15.step; return 0
+  | ["c16"] => Drv.pureLoop Drv.C16.step; return 0
   | _ => IO.eprintln "usage: drv <model>"; return 2
